@@ -11,9 +11,12 @@ def run(ctx):
     prove(ctx)
     sat_common.run_property(ctx, "C01")
     ctx.rule = ("cases = CNF x assumptions x solution_limit x luby_factor x budgets from the families listed in scopes; "
-                "contract: every returned assignment satisfies every clause and every assumption, solutions pairwise distinct; "
-                "non-trivial = the run made >= 1 decision on a formula with > 1 clause, or returned > 1 model; distinct = different (formula, configuration)")
-    ctx.assumptions += ["oracle: brute force up to 14 variables, z3 above (trusted)",
+                "contract: every returned assignment satisfies every clause and every assumption, solutions pairwise distinct "
+                "(and never more solutions than the formula has models, where brute force can count them); "
+                + sat_common.ROUND2_RULE +
+                "non-trivial = the run made >= 1 decision on a formula with > 1 clause, or returned > 1 model; distinct = different (formula or recipe, configuration) / different call sequence")
+    ctx.assumptions += ["oracle: direct evaluation of every returned assignment; for `a model exists`: planted witness (checked), "
+                        "a returned assignment that passes evaluation, brute force up to 14 variables, z3 above (trusted, time-limited on the size ladder)",
                         "bounded: decided only on the enumerated / sampled cases"]
 
 
@@ -24,6 +27,6 @@ def prove(ctx):
 
 def replay(rec):
     use_repo()
-    v, info = sat_common.evaluate(rec["case"], rec["case"].get("timeout_s", 6))
+    v, info = sat_common.replay_case(rec)
     print("replay:", v or "no violation", info)
     return 1 if any(o.startswith("C01") for o, _ in v) else 0
